@@ -250,6 +250,17 @@ func (s *state) setOuter(key ir.Value, value Nilness) {
 	s.m[num] = v
 }
 
+// fromInteger reports whether T is an integer type, or a type parameter whose
+// type set contains an integer type. Converting such a value to a pointer-like
+// type (unsafe.Pointer) yields nil for zero, even though integers themselves
+// are never nil.
+func fromInteger(T types.Type) bool {
+	return typeutil.Any(T, func(term *types.Term) bool {
+		b, ok := term.Type().Underlying().(*types.Basic)
+		return ok && b.Info()&types.IsInteger != 0
+	})
+}
+
 func defaultNilnessForSignature(pass *analysis.Pass, typ *types.Signature) []ValueNilness {
 	n := typ.Results().Len()
 	if n == 0 {
@@ -388,7 +399,13 @@ start:
 
 			switch v := instr.(type) {
 			case *ir.Convert:
-				s.set(v, s.get(v.X))
+				if fromInteger(v.X.Type()) {
+					// unsafe.Pointer(uintptr(0)) is nil, and we don't track
+					// the values of integers.
+					s.set(v, ValueNilness{MaybeNil, MaybeNil})
+				} else {
+					s.set(v, s.get(v.X))
+				}
 			case *ir.SliceToArrayPointer:
 				// Go does not currently allow (*T)(s) where T is a type
 				// parameter with a type set consisting of array types, but it
@@ -501,7 +518,11 @@ start:
 			case *ir.ChangeType:
 				s.set(v, s.get(v.X))
 			case *ir.MultiConvert:
-				s.set(v, s.get(v.X))
+				if fromInteger(v.X.Type()) {
+					s.set(v, ValueNilness{MaybeNil, MaybeNil})
+				} else {
+					s.set(v, s.get(v.X))
+				}
 			case *ir.Load:
 				if _, ok := v.X.(*ir.Global); ok {
 					s.setOuter(v, MaybeNilGlobal)
